@@ -99,7 +99,9 @@ const ALIAS_BITS: &[&str] = &["a", "ʃ", "t͡s", "kʷʰ", "n̥", "g", "ñ", "¢"
 
 fn alias_seg(g: &mut Gen) -> String {
     let base = match g.rng.below(6) { 0 => "ʃ".to_string(), 1 => ["C", "V", "O", "N", "P"][g.rng.below(5)].to_string(), 2 => "[+str]".to_string(), 3 => "a".to_string(), 4 => "kʷ".to_string(), _ => g.seg() };
-    match g.rng.below(5) { 0 => format!("{base}:[+long]"), 1 => format!("{base}:[+str, -long]"), 2 => format!("{base}:[tone: {}]", ["5", "51", "214", "050", "65535", "65536"][g.rng.below(6)]), _ => base }
+    match g.rng.below(8) { 0 => format!("{base}:[+long]"), 1 => format!("{base}:[+str, -long]"), 2 => format!("{base}:[tone: {}]", ["5", "51", "214", "050", "65535", "65536"][g.rng.below(6)]),
+        3 => { let k = 1 + g.rng.below(3); format!("{base}:[{}]", (0..k).map(|_| format!("{}{}", ["+", "-"][g.rng.below(2)], ["long", "overlong", "stress", "sec.stress", "nasal", "voice", "round", "place", "lab"][g.rng.below(9)])).collect::<Vec<_>>().join(", ")) }
+        4 => format!("{base}:[+overlong]"), _ => base }
 }
 fn alias_repl(g: &mut Gen) -> String {
     let r = ["sh", "tt", "á", "@{acute}", "\\u{00FE}", "@{Space}", "x", "*", "∅", "\\,", "a\\>b", "é@{grave}", "q\\u{301}"][g.rng.below(13)];
